@@ -437,8 +437,7 @@ def zeros_like_slice(t, of):
   return sym.contains(shp, lambda z: z == Term('attr', S(of), 'shape')) and sym.contains(shp, lambda z: z.k == 'store' and z.a[1] == S('axis') and z.a[2] == sym.const(1))
 
 
-def rule_advection(chk, prog):
-  rule = 'C13.4-boundary-fluxes'
+def rule_advection(chk, prog, rule='C13.4-boundary-fluxes', centred_only=False):
   ev = evaluator(prog, extra={f'{SC}.centered_difference'})
   f = prog.func(f'{SC}.centered_vertical_advection')
   v, ctx, env = ev.run(f)
@@ -476,6 +475,9 @@ def rule_advection(chk, prog):
     padded(wcat[0], lambda t: t == S('w'), 'w', 'w')
     cd = lambda t: t.k == 'call' and util.callee_name(t) == 'centered_difference' and list(t.a[1])[:3] == [S('x'), S('coordinates'), S('axis')]
     padded(xcat[0], cd, 'x', '∂x/∂σ')
+  if centred_only:
+    chk.at_least(rule, 5)
+    return
   # upwind
   f = prog.func(f'{SC}.upwind_vertical_advection')
   v, ctx, env = ev.run(f)
